@@ -76,6 +76,7 @@ type Report struct {
 	Info               map[string]interface{} `json:"info,omitempty"`
 	Assumptions        []string               `json:"assumptions,omitempty"`
 	Violations         []*Violation           `json:"violations,omitempty"`
+	DistinctKeys       []string               `json:"distinct_keys,omitempty"` // worker -> parent: hashes of the distinct cases
 	seenFP             map[string]bool
 	distinct           map[string]bool
 }
@@ -96,9 +97,9 @@ func (r *Report) Count(name string, d int64) {
 func (r *Report) Distinct(key string) bool {
 	r.mu.Lock()
 	defer r.mu.Unlock()
-	if len(key) > 64 {
+	{
 		h := sha1.Sum([]byte(key))
-		key = string(h[:])
+		key = fmt.Sprintf("%x", h[:8])
 	}
 	if r.distinct[key] {
 		return false
@@ -153,7 +154,16 @@ func (r *Report) merge(o *Report) {
 	r.Transitions += o.Transitions
 	r.Traces += o.Traces
 	r.Evaluations += o.Evaluations
-	r.DistinctNontrivial += o.DistinctNontrivial
+	if len(o.DistinctKeys) > 0 {
+		for _, k := range o.DistinctKeys {
+			if !r.distinct[k] {
+				r.distinct[k] = true
+				r.DistinctNontrivial++
+			}
+		}
+	} else {
+		r.DistinctNontrivial += o.DistinctNontrivial
+	}
 	if o.Rule != "" {
 		r.Rule = o.Rule
 	}
@@ -323,6 +333,11 @@ func Main() {
 		ctx.Shard, ctx.NShards = *shard, *nshards
 		rep := NewReport(p.ID)
 		p.Run(ctx, rep)
+		if len(rep.distinct) <= 200000 {
+			for k := range rep.distinct {
+				rep.DistinctKeys = append(rep.DistinctKeys, k)
+			}
+		}
 		enc := json.NewEncoder(os.Stdout)
 		if err := enc.Encode(rep); err != nil {
 			fmt.Fprintln(os.Stderr, err)
